@@ -522,11 +522,13 @@ SignalHandler::SignalHandler(BasicSolver &s)
   MP_VERIF_POINT(2);
   signal_message_size_ = static_cast<unsigned>(message_.size());
   MP_VERIF_POINT(3);
-  std::signal(SIGINT, HandleSigInt);
-  MP_VERIF_POINT(4);
-  std::signal(SIGTERM, HandleSigInt);
-  MP_VERIF_POINT(5);
+  // Clear the counter before the handlers are installed: a signal arriving
+  // after signal() must stay counted.
   stop_ = 0;
+  MP_VERIF_POINT(4);
+  std::signal(SIGINT, HandleSigInt);
+  MP_VERIF_POINT(5);
+  std::signal(SIGTERM, HandleSigInt);
   MP_VERIF_POINT(6);
 }
 
